@@ -277,6 +277,15 @@ def r14_4(ctx):
             kinds.add("call")
     ctx.check(kinds == {"Timeout"}, "timeout-arm-result", f.loc(sb), "every result of the Timeout arm is Err(ExecutionError::Timeout(..))",
               "the Timeout arm can return %s" % sorted(kinds))
+    # the converse (contract with the test command, which counts one failure per output that carries ExitStatus::Timeout): ExecutionError::Timeout is
+    # constructed only in the arm of an observed timed-out output - an early `return Err(Timeout(..))` elsewhere hands over outputs without a timed-out
+    # one, nothing is counted as failed and the run exits 0
+    stray = [(ab, si) for ab, si, arv in aggregates(f, "ExecutionError", "Timeout") if ab not in reach]
+    stray += [(ab, si) for ab, si, arv in aggregates(f, "ExecutionTimeout") if ab not in reach]
+    ctx.check(not stray, "timeout-only-from-output", stmt_loc(f, stray[0][0], stray[0][1]) if stray else f.loc(sb),
+              "ExecutionError::Timeout is constructed only in the arm of an output whose exit status is Timeout",
+              "ExecutionError::Timeout(..) is also constructed outside the arm of a timed-out output: the outputs handed to the test command then contain no "
+              "ExitStatus::Timeout, no failure is counted, the remaining test cases are booked as skipped and the run exits 0 although the document ran out of time")
     # Total exactly on the is_global edge
     for ab, si, arv in aggregates(f, "ExecutionTimeout"):
         if ab not in reach:
@@ -616,6 +625,52 @@ def r14_8(ctx, accept_terminate=False):
                   "exited); a `sleep 3; touch marker` with `timeout: 1s` still creates the marker, and bash's EXIT trap re-creates the removed state directory")
 
 
+def r14_9(ctx):
+    """the limit covers the whole execution, not only the reading of the output: when a timeout is set, no *unbounded* Popen::wait is reached
+    before the process was killed (a command that closes its output streams ends the reading at once and then runs as long as it likes)"""
+    prog = ctx.prog
+    r = prog.impl_fn("SubprocessRunner", "Runner", "run")
+    waits = [bb for bb, t in r.calls() if mname(t) == "Popen::wait"]
+    kills = [bb for bb, t in r.calls() if mname(t) == "Popen::kill"]
+    for bb, t in r.calls():
+        if t.get("resolved_local"):
+            hb = prog.body_by_def(t["resolved"], r.crate)
+            if hb is not None and hb is not r:
+                hk = [b2 for b2, t2 in hb.calls() if mname(t2) == "Popen::kill"]
+                hw = [b2 for b2, t2 in hb.calls() if mname(t2) == "Popen::wait"]
+                if hk and not any(rb in hb.reachable(0, removed_blocks=hk) for rb in hb.return_blocks()):
+                    kills.append(bb)
+                elif hw:
+                    waits.append(bb)
+    if not waits:
+        raise AnchorError("SubprocessRunner::run: no Popen::wait call")
+    # the Some edge(s) of `testcase.config.timeout` from which the read is reachable or that follow it
+    some_edges = []
+    for sb, st in switches(r):
+        ve, rv = variant_edges(r, sb)
+        if ve is None or set(ve) != {"None", "Some"}:
+            continue
+        if [p["n"] for p in rv["place"]["p"] if isinstance(p, dict) and "n" in p][-2:] != ["config", "timeout"]:
+            continue
+        some_edges.append((sb, ve["Some"], place_key(rv["place"])))
+    if not some_edges:
+        raise AnchorError("SubprocessRunner::run: no match on testcase.config.timeout")
+    n = 0
+    for wb in sorted(set(waits)):
+        n += 1
+        # reachable with the limit set (consistently with timeout == Some on every later re-inspection) without passing a kill?
+        unbounded = False
+        for sb, tgt, pk in some_edges:
+            reach = reach_consistent(r, tgt, {pk: "Some"}, removed_edges=[])
+            if wb in reach:
+                # remove kill blocks: still reachable?
+                if wb in reach_consistent(r, tgt, {pk: "Some"}, removed_edges=[], removed_blocks=kills):
+                    unbounded = True
+        ctx.check(not unbounded, "no-unbounded-wait#%d" % n, r.loc(wb), "this wait() is reached only without a limit or after the process was killed",
+                  "with a timeout set this unbounded wait() is reached without a preceding kill: a command that closes stdout and stderr (`exec >&- 2>&-; sleep 3`) "
+                  "ends the limited read at once and then runs to completion - the test passes after 3 s with `timeout: 1s`, the document limit is overrun the same way")
+
+
 def run(ctx):
     ctx.run_rule("R14.1", "effective timeout: the `min` over Option<Timeout> candidates uses a comparator whose primary key is the Duration (derived Ord => first declared field) [type facts]", r14_1, floor=2)
     ctx.run_rule("R14.2", "the selected timeout is stored into testcase.config.timeout before Runner::run; SubprocessRunner::run passes limit_time(t) on every path on the Some(t) edge [E-FLOW, E-PATH]", r14_2, floor=4)
@@ -623,5 +678,8 @@ def run(ctx):
     ctx.run_rule("R14.4", "execute_all: the Timeout arm always returns Err(Timeout(..)), never continues; Total exactly when is_global [E-PATH]", r14_4, floor=4)
     ctx.run_rule("R14.5", "test command: ExitStatus::Timeout => Err(TestCaseError::Timeout) + count_failed, never validated; remainder => Skipped [E-SITE]", r14_5, floor=4)
     ctx.run_rule("R14.8", "a timed-out execution is aborted: Popen::kill dominates every ExitStatus::Timeout result of SubprocessRunner::run [E-PATH must-pass]", r14_8, floor=1)
+    ctx.run_rule("R14.9", "the limit covers the wait for the exit status too: with a timeout set no unbounded Popen::wait is reached before a kill (F31) [E-PATH, path-sensitive on the timeout Option]", r14_9, floor=2)
     ctx.run_rule("R14.7", "the remaining document time never degrades to `no limit`: deadline.map(total saturating subtraction) [E-FLOW through closure summaries]", r14_7, floor=2)
     ctx.run_rule("R14.6", "Cram: script timeout from the document limit unless zero; per-test timeouts rejected [E-SITE]", r14_6, floor=3)
+    from . import c20
+    ctx.run_rule("R14.10", "attribution in the Timeout arm: outputs and test cases are zipped positionally (no filter / skip on either side), so the timed-out result lands on the test case that timed out and a command inside its limits is not reported as timed out (shared with C20 R20.4) [E-STATE]", c20.r20_4, floor=7)
